@@ -118,8 +118,9 @@ def cases(thorough):
     for ms in multi_archives():
         for mode in ("l", "lv", "v", "vv"):
             for q in ("", "q0", "q1", "q2", "q"):
-                for filters in ([], [hx(b"*.txt")], [hx(b"nomatch*")], [hx(b"*.c"), hx(b"alpha.???")], [hx(b"*/util.c")], [hx(b"*na")], [hx(b"src/*")], [hx(b"*")], [hx(b"?eta.c"), hx(b"*.v1.txt")]):
-                    yield {"members": ms, "mode": mode, "q": q, "filters": filters}
+                for fi, filters in enumerate(([], [hx(b"*.txt")], [hx(b"nomatch*")], [hx(b"*.c"), hx(b"alpha.???")], [hx(b"*/util.c")], [hx(b"*na")], [hx(b"src/*")], [hx(b"*")], [hx(b"?eta.c"), hx(b"*.v1.txt")])):
+                    for spell in ((0, 1, 2, 3) if fi < 2 else (fi % 4,)):
+                        yield {"members": ms, "mode": mode, "q": q, "filters": filters, "spell": spell}
 
 
 def many_cases(thorough):
@@ -158,7 +159,7 @@ def run(ctx):
                         "totals are kept below 2^32 (the statement says 'sums'; a 32-bit total is not decidable from it); fixed 'now' through TEST_NOW_TIME, archive mtime set with utime"]
     return ctx.finish(
         rule="single-member archives varying one column at a time over its boundary values (size x packed over {0,1,9999999,10^7,2^31,2^32-1} x levels; all 256 OS types; each permission bit x type nibble; all 128 OS-9 words; uid/gid boundaries; 15 Unix and 7 DOS timestamps around the six-month boundary, 0 and 2^32-1; name lengths 0..40 and 300; names, directory parts and link targets of 250..260, 511..513, 1023..1025 and 4000 (thorough 8191..8193, 20000) bytes; links and directories at every level; every method name) x {l, lv, v, vv}; "
-             "archives of 0/1/2/5 members x 4 modes x quiet {none,q0,q1,q2,q} x 9 wildcard lists (incl. backtracking patterns); wildcard lists against stored paths of 250..1000 (5000) bytes; names holding printf conversion specifications; archives of 255/256/257/1000 (thorough 65537) members with and without wildcard lists; a DST-bearing zone (Europe/London) for the time columns. Oracle: stdout equals the reference rendering byte for byte. non-trivial = cases with at least one selected row",
+             "archives of 0/1/2/5 members x 4 modes x quiet {none,q0,q1,q2,q} x 9 wildcard lists x spellings of the command word (quiet before/after the verbose modifier, with/without the leading '-') (incl. backtracking patterns); wildcard lists against stored paths of 250..1000 (5000) bytes; names holding printf conversion specifications; archives of 255/256/257/1000 (thorough 65537) members with and without wildcard lists; a DST-bearing zone (Europe/London) for the time columns. Oracle: stdout equals the reference rendering byte for byte. non-trivial = cases with at least one selected row",
         replay_fn=lambda rep: cliprop.replay_case(rep))
 
 
